@@ -136,7 +136,7 @@ class ULPIRegisterWindow(Elaboratable):
 
                     # Once it is, start sending our command.
                     m.d.usb += [
-                        self.ulpi_data_out .eq(self.COMMAND_REG_READ | self.address),
+                        self.ulpi_data_out .eq(self.COMMAND_REG_READ | current_address),
                         self.ulpi_out_req  .eq(1)
                     ]
 
@@ -195,7 +195,7 @@ class ULPIRegisterWindow(Elaboratable):
 
                     # Once it is, start sending our command.
                     m.d.usb += [
-                        self.ulpi_data_out .eq(self.COMMAND_REG_WRITE | self.address),
+                        self.ulpi_data_out .eq(self.COMMAND_REG_WRITE | current_address),
                         self.ulpi_out_req  .eq(1)
                     ]
 
@@ -213,7 +213,7 @@ class ULPIRegisterWindow(Elaboratable):
                 # Hold our address until the PHY has accepted the command;
                 # and then move to presenting the PHY with the value to be written.
                 with m.Elif(self.ulpi_next):
-                    m.d.usb += self.ulpi_data_out.eq(self.write_data)
+                    m.d.usb += self.ulpi_data_out.eq(current_write)
                     m.next = 'HOLD_WRITE'
 
 
@@ -438,22 +438,26 @@ class ULPIControlTranslator(Elaboratable):
         write_requested = Signal(name=f"write_requested_{address:02x}")
         write_value     = Signal(8, name=f"write_value_{address:02x}")
         write_done      = Signal(name=f"write_done_{address:02x}")
+        written_value   = Signal(8, name=f"written_value_{address:02x}")
 
         self._register_signals[address] = {
             'write_requested': write_requested,
             'write_value':     write_value,
-            'write_done':      write_done
+            'write_done':      write_done,
+            'written_value':   written_value
         }
 
-        # If we've just finished a write, update our current register value.
+        # If we've just finished a write, update our current register value with the value that
+        # was actually written; which isn't necessarily the one we'd request right now.
         with m.If(write_done):
-            m.d.usb += current_register_value.eq(write_value),
+            m.d.usb += current_register_value.eq(written_value),
 
         # If we have a mismatch between the requested and actual register value,
         # request a write of the new value.
-        m.d.comb += write_requested.eq(current_register_value != value)
-        with m.If(current_register_value != value):
-            m.d.usb += write_value.eq(value)
+        m.d.comb += [
+            write_requested  .eq(current_register_value != value),
+            write_value      .eq(value)
+        ]
 
 
     def populate_ulpi_registers(self, m):
@@ -480,9 +484,21 @@ class ULPIControlTranslator(Elaboratable):
         # Add the registers that represent each of our signals.
         self.populate_ulpi_registers(m)
 
+        # Keep track of which register the write our register window is performing is for, and of the
+        # value being written. Our control inputs can change (or change back) before a write completes;
+        # so a completion must be credited to the register that was written, with the value that was written.
+        write_in_flight_for = Signal(len(self._register_signals))
+        value_in_flight     = Signal(8)
+
+        for index, signals in enumerate(self._register_signals.values()):
+            m.d.comb += [
+                signals['write_done']     .eq(self.register_window.done & write_in_flight_for[index]),
+                signals['written_value']  .eq(value_in_flight)
+            ]
+
         # Generate logic to handle changes on each of our registers.
         first_element = True
-        for address, signals in self._register_signals.items():
+        for index, (address, signals) in enumerate(self._register_signals.items()):
 
             conditional = m.If if first_element else m.Elif
             first_element = False
@@ -499,10 +515,14 @@ class ULPIControlTranslator(Elaboratable):
                     ~self.register_window.done & \
                     self.bus_idle
 
-                m.d.comb += [
+                # The register window accepts our request when it's idle; note what we've asked of it.
+                with m.If(request_write & ~self.register_window.busy):
+                    m.d.usb += [
+                        write_in_flight_for  .eq(1 << index),
+                        value_in_flight      .eq(signals['write_value'])
+                    ]
 
-                    # Control signals.
-                    signals['write_done']              .eq(self.register_window.done),
+                m.d.comb += [
 
                     # Register window signals.
                     self.register_window.address       .eq(address),
